@@ -31,6 +31,9 @@ type Prog struct {
 	vtaCG  *callgraph.Graph
 	chaCG  *callgraph.Graph
 	fieldInit map[string]bool // fieldOnlyInitialised memo
+	globalStores    map[*ssa.Global][]*ssa.Store // tableval.go
+	globalAddrTaken map[*ssa.Global]bool
+	tableMemo       map[*ssa.Global][]*SV
 	// forbidden features found in repository packages (unsafe, reflect
 	// calls, linkname, cgo); affected checks treat them as undecided.
 	Forbidden []string
